@@ -213,6 +213,7 @@ func workerMain(o *options) int {
 			break
 		}
 		seed := deriveSeed(o.seed, o.idx, chunk)
+		stats.SeedsUsed++
 		flag.Set("rapid.seed", strconv.FormatUint(seed, 10))
 		flag.Set("rapid.checks", strconv.Itoa(o.checks))
 		flag.Set("rapid.nofailfile", "true")
@@ -238,6 +239,9 @@ func workerMain(o *options) int {
 				}
 				b := p.Gen(t)
 				b.Prop = p.ID
+				if !failing {
+					stats.kind(b.Kind)
+				}
 				if failing {
 					stats.Shrinks++
 				} else {
@@ -540,6 +544,9 @@ func writeEvidence(o *options, p *Property, s *Stats, violations int, wall float
 		"probes_stuck_at_zero":   zeroProbes,
 		"known_findings_hit":     s.Known,
 		"workers":                workers,
+		"base_seed":              o.seed,
+		"rapid_seeds_used":       s.SeedsUsed,
+		"bundle_kinds":           s.Kinds,
 		"components":             p.Components,
 		"exhaustive":             false,
 	}
